@@ -437,6 +437,10 @@ type c15ChildOut struct {
 // runChild executes "c15:<order>:<name>" in a process where nothing of the library has run yet.
 func runChild(spec string) {
 	parts := strings.SplitN(spec, ":", 3)
+	if len(parts) >= 2 && parts[0] == "c11" {
+		runChildC11(strings.SplitN(spec, ":", 2)[1])
+		return
+	}
 	if len(parts) >= 1 && parts[0] == "c08" {
 		runChildC08()
 		return
